@@ -99,6 +99,28 @@ def one_case(ctx, index, rng: random.Random):
                 rec.fail(monitor="C09.chain", op="T.T", symptom="T.T differs from the original", diff=sorted(snap.diff(snap.snapshot(h), snap.snapshot(tt))), detail=desc)
     ax = rng.randrange(d)
     h.accumulate(names[ax] if rng.random() < 0.5 else ax)
+    narrow = None
+    if rng.random() < 0.2:
+        # compact integer contents: every bin fits the type, the running sums and marginals do not have to
+        from physt.histogram_nd import Histogram2D, HistogramND
+
+        narrow = rng.choice(["int16", "int32"])
+        top = int(np.iinfo(narrow).max)
+        big = np.array([rng.choice([0, 1, top // 2, top - 1, top, rng.randint(0, top)]) for _ in range(int(np.prod(shape)))], dtype=narrow).reshape(shape)
+        bn = [b.copy() for b in h.binnings]
+        try:
+            g = Histogram2D(bn, frequencies=big, axis_names=names) if d == 2 else HistogramND(bn, frequencies=big, axis_names=names)
+            g.accumulate(names[ax] if rng.random() < 0.5 else ax)
+            pg = g.projection(*given)
+            with attach.quiet():
+                dropped = tuple(i for i in range(d) if i not in axes)
+                exact = big.astype(np.int64).sum(axis=dropped)
+                if not np.array_equal(np.asarray(pg.frequencies).astype(np.int64), exact) or float(pg.total) != float(big.astype(np.int64).sum()):
+                    rec.fail(monitor="C09.chain", op="projection(narrow integer contents)", symptom="marginal sums of compact integer contents wrapped around", diff=["frequencies"],
+                             detail={**desc, "dtype": narrow, "got": np.asarray(pg.frequencies).ravel()[:8], "expected": exact.ravel()[:8]})
+        except Exception as e:
+            rec.fail(monitor="C09.chain", op="narrow integer contents", symptom=f"projection / accumulate of compact integer contents raised {type(e).__name__}", diff=["raised"],
+                     detail={**desc, "dtype": narrow, "error": str(e)[:160]})
     # refusals
     bad = rng.choice([(d + 1,), (0, 0), (), ("nope",), (-1,), (1.5,), (names[0], 0)])
     try:
@@ -109,7 +131,7 @@ def one_case(ctx, index, rng: random.Random):
         pass
     unordered = list(axes) != sorted(axes)
     rec.case([shape, gen.hexlist(rows.ravel())[:200], given], (d >= 3 or shape[0] != shape[1]) and weighted and (unordered or any(isinstance(g, str) for g in given)),
-             cls=f"{d}d/{'w' if weighted else 'u'}/{'name' if any(isinstance(g, str) for g in given) else 'index'}{'/unordered' if unordered else ''}",
+             cls=f"{d}d/{'w' if weighted else 'u'}/{'name' if any(isinstance(g, str) for g in given) else 'index'}{'/unordered' if unordered else ''}{'/' + narrow if narrow else ''}",
              sample={"shape": shape, "axes": given, "total": float(h.total), "projection": np.asarray(p.frequencies).ravel()[:8].tolist()})
 
 
@@ -157,7 +179,12 @@ def transformed_case(ctx, index, rng: random.Random):
     rec.case(["transformed", kind, axes, pts.tolist()], True, cls=f"transformed/{kind}")
 
 
+def detached_case(ctx, index, rng: random.Random):
+    structure.detached_workload(ctx, index, rng, prop="C09", monitor="C09.chain")
+
+
 def run(ctx):
     attach_monitors()
+    ctx.run_cases(ctx.scale(120, 800), detached_case, salt="detached")
     ctx.run_cases(ctx.scale(400, 3500), one_case)
     ctx.run_cases(ctx.scale(60, 400), transformed_case, salt="transformed")
